@@ -17,6 +17,8 @@ pub struct GenCfg {
     pub zst: bool,
     pub par: bool,
     pub serde: bool,
+    /// entry-focused runs: most calls while a resize is pending go through entry / raw-entry handles
+    pub entry: bool,
 }
 
 fn pick<T: Copy>(rng: &mut SmallRng, v: &[T]) -> Option<T> {
@@ -342,6 +344,15 @@ impl Gen {
                 3 if w.alive(d) => json!({"op":"CloneFrom","s":d,"d":s}),
                 _ if w.alive(d) => json!({"op":"Eq","s":s,"d":d}),
                 _ => json!({"op":"Clone","s":s,"d":d}),
+            };
+        }
+        if self.cfg.entry && !self.cfg.set && split && self.rng.gen_bool(0.6) {
+            let k = if self.rng.gen_bool(0.8) { self.key_of(w, s, 2) } else { self.any_key(w, s) };
+            return if self.rng.gen_bool(0.65) {
+                json!({"op":"Entry","s":s,"k":k,"chain": self.entry_chain()})
+            } else {
+                let via = *["key", "hashed", "hash"].choose(&mut self.rng).unwrap();
+                json!({"op":"RawEntry","s":s,"k":k,"via":via,"chain": self.raw_chain()})
             };
         }
         // now and then: execute C04's sentence (fill the map up to its capacity with unseen keys)
